@@ -282,33 +282,56 @@ func enumPaths(fn *ssa.Function, to *ssa.BasicBlock, limit int) (paths []cfgPath
 					addCondFacts(p.Facts, iff.Cond, pr.Succs[0] == nx)
 				}
 			}
+			// a boolean phi whose value is known on this path has, on this path, the value of the edge the path
+			// took into its block: that value is known too (and a contradicting constant makes the path infeasible)
+			feasible := true
+			idx := map[*ssa.BasicBlock]int{}
+			for k, pb := range p.Blocks {
+				idx[pb] = k
+			}
+			for round := 0; round < 4 && feasible; round++ {
+				added := false
+				for f := range p.Facts {
+					ph, isPhi := f.Cond.(*ssa.Phi)
+					if !isPhi {
+						continue
+					}
+					k, onPath := idx[ph.Block()]
+					if !onPath || k == 0 {
+						continue
+					}
+					from := p.Blocks[k-1]
+					for e, pr := range ph.Block().Preds {
+						if pr != from || e >= len(ph.Edges) {
+							continue
+						}
+						if v, isC := constBool(ph.Edges[e]); isC {
+							if v != f.Pol {
+								feasible = false
+							}
+							continue
+						}
+						if !p.Facts[condFact{ph.Edges[e], f.Pol}] {
+							addCondFacts(p.Facts, ph.Edges[e], f.Pol)
+							added = true
+						}
+					}
+				}
+				if !added {
+					break
+				}
+			}
+			if !feasible {
+				return
+			}
 			deriveFacts(p.Facts)
 			paths = append(paths, p)
 			return
 		}
 		succs := b.Succs
-		// a block branching on a phi of boolean constants: the incoming edge decides
-		if iff, isIf := b.Instrs[len(b.Instrs)-1].(*ssa.If); isIf && len(cur) >= 2 {
-			cond, neg := iff.Cond, false
-			for {
-				u, isU := cond.(*ssa.UnOp)
-				if !isU || u.Op != token.NOT {
-					break
-				}
-				cond, neg = u.X, !neg
-			}
-			if phi, vals, isPhi := phiBoolConsts(cond); isPhi && phi.Block() == b {
-				from := cur[len(cur)-2]
-				for k, pr := range b.Preds {
-					if pr == from {
-						if vals[k] != neg {
-							succs = []*ssa.BasicBlock{b.Succs[0]}
-						} else {
-							succs = []*ssa.BasicBlock{b.Succs[1]}
-						}
-					}
-				}
-			}
+		// a block branching on a phi of its own: the incoming edge decides where its value is a constant
+		if len(cur) >= 2 {
+			succs = threadedSuccs(b, cur[len(cur)-2])
 		}
 		for _, s := range succs {
 			walk(s)
